@@ -799,5 +799,55 @@ def r17_12(ctx):
     return r
 
 
+# RFC 4960 3.2: the chunk types by which the PEER ends the association (protocol constants, not repository choices)
+PEER_ENDS = {6: "ABORT", 8: "SHUTDOWN ACK", 14: "SHUTDOWN COMPLETE"}
+
+
+def r17_13(ctx):
+    """'a lower layer ... is closed by the peer -> the connection reports a terminal state and a disconnect reason'. For
+    SCTP the peer ends the association with ABORT, or with a shutdown handshake whose last chunk for the side that
+    started it is SHUTDOWN ACK and for the other side SHUTDOWN COMPLETE. Each of them must have an arm in the chunk
+    dispatch of handle_packet, and every path through that arm records a close reason and sets the state Closed (which
+    is what the run loop, the cleanup guard and the connection's monitoring task react to). SHUTDOWN COMPLETE used to
+    fall into the 'unhandled chunk' arm: after a graceful shutdown by the peer the association stayed Connected."""
+    r = RuleResult("R17.13", "K6+K4", "every chunk by which the peer ends the SCTP association closes ours, with a reason")
+    fn = "transports::sctp::SctpInner::handle_packet::{closure#0}"
+    b = ctx.body(fn)
+    r.scope.append(fn)
+    disp = None
+    for sb, blk in enumerate(b.blocks):
+        if sb in b.cleanup or blk["t"]["k"] != "switch":
+            continue
+        term, outs = b.switch_info(sb)
+        ints = [m for _t, _l, m in outs if isinstance(m, int) and not isinstance(m, bool)]
+        if term[0] == "call" and term[1].endswith("get_u8") and len(ints) >= 8:
+            disp = (sb, outs)
+    if disp is None:
+        raise core.CheckerError("R17.13: chunk-type dispatch of handle_packet not found")
+    sb, outs = disp
+    headers = set(core.enclosing_loop_headers(b, sb))
+    closes = [bi for bi, t, p in b.calls() if p and p.endswith("SctpInner::set_state") and
+              mir.has(b.term_operand(t["a"][1]), lambda x: x[0] == "agg" and x[2] == "Closed")]
+    reasons = [bi for bi, si, st, v in core.lock_write_sites(b, "close_reason")]
+    by_val = {m: tgt for tgt, _l, m in outs if isinstance(m, int) and not isinstance(m, bool)}
+    for val, name in sorted(PEER_ENDS.items()):
+        if val not in by_val:
+            r.violate(fn, "end:%d" % val, b.where(sb),
+                      "chunk type %d (%s) has no arm in the dispatch: when the peer ends the association this way ours stays Connected "
+                      "(no terminal state, no reason, channels not closed) until a heartbeat fails" % (val, name))
+            continue
+        tgt = by_val[val]
+        for what, via in (("state Closed", closes), ("a close reason", reasons)):
+            reach = b.reachable([tgt], cut_blocks=set(via)) if tgt not in via else set()
+            leak = [x for x in reach if (b.blocks[x]["t"]["k"] == "ret" and x not in b.cleanup) or
+                    any(t2 in headers for t2, _ in b.succ_edges(x))]
+            if leak:
+                r.violate(fn, "end:%d:%s" % (val, what.split()[-1]), b.where(tgt),
+                          "the %s arm can be left without %s" % (name, what))
+            else:
+                r.ok({"chunk": name, "arm": b.where(tgt), "sets": what})
+    return r
+
+
 def run(ctx):
-    return [r17_1(ctx), r17_2(ctx), r17_3(ctx), r17_4(ctx), r17_5(ctx), r17_6(ctx), r17_7(ctx), r17_8(ctx), r17_9(ctx), r17_10(ctx), r17_11(ctx), r17_12(ctx)]
+    return [r17_1(ctx), r17_2(ctx), r17_3(ctx), r17_4(ctx), r17_5(ctx), r17_6(ctx), r17_7(ctx), r17_8(ctx), r17_9(ctx), r17_10(ctx), r17_11(ctx), r17_12(ctx), r17_13(ctx)]
